@@ -204,7 +204,7 @@ Definition conn_rgb : option (N * N * N) :=
 Definition CHICK : str := [128036; 32].                 (* "🐤 " *)
 Definition BRANCH_GLYPH : str := [9095; 32].            (* "⎇ " *)
 Definition DELTA : str := [916; 32; 43].                (* "Δ +" *)
-Definition SEP : str := $" | ".
+Definition SEP : str := SL_SEP.
 Definition QMARK : str := $"?".
 
 Inductive changes := CNotRepo | CClean | CDirty (added removed : str).
@@ -231,6 +231,30 @@ Definition fd_of (v : json) : option N :=
   | _ => None
   end.
 
+(* which repairs of the statusline are in the code: all of them today; the legacy lemmas switch one off *)
+Record fixes := {
+  fx_guard : bool;      (* c6068c5  bin/dippy-statusline: try: main() except Exception: print("?") *)
+  fx_tpstr : bool;      (* fe4fc32  get_context_from_transcript ignores a transcript_path that is not a str *)
+  fx_oneline : bool     (* 16f7bd5  the built line is collapsed to one line; a cached text is served only if it is one line *)
+}.
+Definition current : fixes := {| fx_guard := true; fx_tpstr := true; fx_oneline := true |}.
+
+(* s.splitlines(): breaks at SL_LINE_BREAKS, "\r\n" counts once, no empty last element *)
+Definition is_break (c : N) : bool := mem_ch c SL_LINE_BREAKS.
+Fixpoint splitlines_aux (s cur : str) (after_cr : bool) : list str :=
+  match s with
+  | [] => match cur with [] => [] | _ => [rev_append cur []] end        (* rev cur, in linear time *)
+  | c :: r =>
+      if after_cr && N.eqb c 10 then splitlines_aux r cur false
+      else if is_break c then rev_append cur [] :: splitlines_aux r [] (N.eqb c 13)
+      else splitlines_aux r (c :: cur) false
+  end.
+Definition splitlines (s : str) : list str := splitlines_aux s [] false.
+(* " ".join(s.splitlines()) *)
+Definition collapse (s : str) : str := join SL_COLLAPSE_SEP (splitlines s).
+(* s.splitlines() == [s] *)
+Definition single_line (s : str) : bool := match splitlines s with [x] => str_eqb x s | _ => false end.
+
 Definition fd_is_stdout (o : option N) : bool := match o with Some n => N.eqb n 1 | None => false end.
 
 Record built := { b_out : res str; b_fd : option N; b_refresh : bool }.
@@ -248,6 +272,7 @@ Section Main.
   Variable base : str.
   Variable pid : str.
   Variable sesc : bool.      (* sys.stdout.errors == "surrogateescape" *)
+  Variable fx : fixes.
   (* interpreter: str(x) of a list / dict *)
   Variable o_repr : json -> str.
   (* data sources: the bodies of the try blocks *)
@@ -365,8 +390,10 @@ Section Main.
               match jget data $"transcript_path" (JStr []) with
               | Raise => (None, None)
               | Ok tp =>
-                  let used := if truthy tp then o_transcript tp else None in
-                  let fd := if truthy tp then fd_of tp else None in
+                  (* get_context_from_transcript(tp): `if not tp [or not isinstance(tp, str)]: return None` *)
+                  let reads := if fx_tpstr fx then match tp with JStr (_ :: _) => true | _ => false end else truthy tp in
+                  let used := if reads then o_transcript tp else None in
+                  let fd := if reads then fd_of tp else None in
                   match used with
                   | None => (styled "context" $"ctx: 80% left", fd)
                   | Some u =>
@@ -405,7 +432,8 @@ Section Main.
   Definition raised : built := {| b_out := Raise; b_fd := None; b_refresh := false |}.
   Definition opt_list (o : option str) : list str := match o with Some s => if nonempty s then [s] else [] | None => [] end.
 
-  Definition build_statusline (data : json) : built :=
+  (* build_statusline up to " | ".join(parts) *)
+  Definition build_raw (data : json) : built :=
     match styled "model" (py_str (field_model data)) with
     | None => raised
     | Some m0 =>
@@ -431,6 +459,13 @@ Section Main.
         end
     end.
 
+  (* return " ".join(" | ".join(parts).splitlines()) *)
+  Definition build_statusline (data : json) : built :=
+    let b := build_raw data in
+    if fx_oneline fx then
+      {| b_out := match b_out b with Ok l => Ok (collapse l) | Raise => Raise end; b_fd := b_fd b; b_refresh := b_refresh b |}
+    else b.
+
   (* ---- main and the guard of bin/dippy-statusline *)
   (* after the first try block [data] is always a dict *)
   Definition data_of (inp : option json) : json :=
@@ -448,10 +483,10 @@ Section Main.
   Definition NL : str := [10].
 
   (* print(line), then the guard's print("?") if that raised *)
-  Definition emit (guarded : bool) (line : str) (is_cached : bool) (st : stored) (rf : bool) : outcome :=
+  Definition emit (line : str) (is_cached : bool) (st : stored) (rf : bool) : outcome :=
     if encodable_out sesc line then
       {| exit_ok := true; out := line ++ NL; traceback := false; served := is_cached; store := st; refresh := rf |}
-    else if guarded then
+    else if fx_guard fx then
       {| exit_ok := true; out := QMARK ++ NL; traceback := false; served := false; store := st; refresh := rf |}
     else
       {| exit_ok := false; out := []; traceback := true; served := false; store := st; refresh := rf |}.
@@ -462,19 +497,20 @@ Section Main.
   Definition broken (st : stored) (rf : bool) : outcome :=
     {| exit_ok := false; out := []; traceback := false; served := false; store := st; refresh := rf |}.
 
-  (* guarded = true: bin/dippy-statusline as it is today (try: main() except Exception: print("?"));
-     guarded = false: the entry point before that guard was added *)
-  Definition sl_main (guarded : bool) (inp : option json) : outcome :=
+  (* `if cached [and cached.splitlines() == [cached]]` *)
+  Definition servable (c : str) : bool := if fx_oneline fx then single_line c else nonempty c.
+
+  Definition sl_main (inp : option json) : outcome :=
     let data := data_of inp in
     let sid := session_of data in
-    match get_cached sid with
-    | Some (c :: cs) => emit guarded (c :: cs) true SNothing false
-    | _ =>
+    match match get_cached sid with Some c => if servable c then Some c else None | None => None end with
+    | Some c => emit c true SNothing false
+    | None =>
         let b := build_statusline data in
         match b_out b with
         | Raise =>
             if fd_is_stdout (b_fd b) then broken SNothing (b_refresh b)
-            else if guarded then
+            else if fx_guard fx then
               {| exit_ok := true; out := QMARK ++ NL; traceback := false; served := false;
                  store := SNothing; refresh := b_refresh b |}
             else
@@ -483,7 +519,7 @@ Section Main.
         | Ok line =>
             let st := set_cache sid line in
             if fd_is_stdout (b_fd b) then broken st (b_refresh b)     (* stdout was closed under sys.stdout *)
-            else emit guarded line false st (b_refresh b)
+            else emit line false st (b_refresh b)
         end
     end.
 End Main.
@@ -517,12 +553,12 @@ Record invocation := {
 Definition files := str -> option str.       (* path -> what was written there *)
 Definition fupd (f : files) (p : str) (v : str) : files := fun q => if str_eqb q p then Some v else f q.
 
-Definition invoke (base : str) (f : files) (i : invocation) : files * outcome :=
-  let o := sl_main base (i_pid i) (i_sesc i) (i_repr i) (i_configured i) (i_branch i) (i_changes i) (i_transcript i) (i_pct i)
+Definition invoke (fx : fixes) (base : str) (f : files) (i : invocation) : files * outcome :=
+  let o := sl_main base (i_pid i) (i_sesc i) fx (i_repr i) (i_configured i) (i_branch i) (i_changes i) (i_transcript i) (i_pct i)
                (i_mcp_local i) (i_mcp_cache i)
                (fun p => match f p with Some _ => Ok (i_age i) | None => Raise end)
                (fun p => match f p with Some s => Ok (univ_nl s) | None => Raise end)
-               (fun _ _ => i_fs i) true (i_inp i) in
+               (fun _ _ => i_fs i) (i_inp i) in
   let f' := match store o with
             | SNothing => f
             | STmpLeft t c => fupd f t c
@@ -530,10 +566,10 @@ Definition invoke (base : str) (f : files) (i : invocation) : files * outcome :=
             end in
   (f', o).
 
-Fixpoint history (base : str) (f : files) (l : list invocation) : list outcome :=
+Fixpoint history (fx : fixes) (base : str) (f : files) (l : list invocation) : list outcome :=
   match l with
   | [] => []
-  | i :: r => let (f', o) := invoke base f i in o :: history base f' r
+  | i :: r => let (f', o) := invoke fx base f i in o :: history fx base f' r
   end.
 
 (* ================================================================= Part 6 *)
